@@ -1310,6 +1310,13 @@ func call(n *node) {
 		if ok {
 			bf = def.rval
 		}
+		if goroutine && bf.IsValid() && bf.CanAddr() {
+			// The function value must be copied now: the frame entry it comes from
+			// may be overwritten (next loop iteration) before the goroutine calls it.
+			c := reflect.New(bf.Type()).Elem()
+			c.Set(bf)
+			bf = c
+		}
 		f.mutex.Unlock()
 
 		// Call bin func if defined
